@@ -101,6 +101,14 @@ func (c *Ctx) runRule(name string) (res *RuleResult) {
 	}()
 	res = e.Fn(c)
 	res.Rule = name
+	for i := range res.Obls {
+		res.Obls[i].Rule = name
+		k := strings.TrimPrefix(res.Obls[i].Key, "|")
+		if !strings.HasPrefix(k, name+"|") {
+			k = name + "|" + k
+		}
+		res.Obls[i].Key = k
+	}
 	if res.Desc == "" {
 		res.Desc = e.Desc
 	}
